@@ -25,6 +25,32 @@ use crate::types::{
     TypeDefinition, TypeName,
 };
 
+#[cfg(conjure_rust_verif)]
+thread_local! {
+    static VERIF_EVENTS: RefCell<Vec<String>> = const { RefCell::new(Vec::new()) };
+}
+
+#[cfg(conjure_rust_verif)]
+fn verif_event(event: String) {
+    VERIF_EVENTS.with(|e| e.borrow_mut().push(event));
+}
+
+#[cfg(conjure_rust_verif)]
+fn verif_safety(safety: &Option<LogSafety>) -> &'static str {
+    match safety {
+        Some(LogSafety::Safe) => "safe",
+        Some(LogSafety::Unsafe) => "unsafe",
+        Some(LogSafety::DoNotLog) => "dnl",
+        None => "none",
+    }
+}
+
+/// Drains the log-safety evaluation events recorded on this thread.
+#[cfg(conjure_rust_verif)]
+pub fn verif_take_events() -> Vec<String> {
+    VERIF_EVENTS.with(|e| e.borrow_mut().drain(..).collect())
+}
+
 enum CachedLogSafety {
     Uncomputed,
     // The type is currently being evaluated, at the given recursion depth.
@@ -989,6 +1015,9 @@ impl Context {
 
     // https://github.com/palantir/conjure-java/blob/develop/conjure-java-core/src/main/java/com/palantir/conjure/java/types/SafetyEvaluator.java
     pub fn is_safe_arg(&self, arg: &ArgumentDefinition) -> bool {
+        #[cfg(conjure_rust_verif)]
+        verif_event(format!("arg {}", &**arg.arg_name()));
+
         if let Some(log_safety) = arg.safety() {
             return *log_safety == LogSafety::Safe;
         }
@@ -1041,9 +1070,17 @@ impl Context {
         let ctx = &self.types[name];
 
         match &*ctx.log_safety.borrow() {
+            #[cfg(conjure_rust_verif)]
+            CachedLogSafety::Computed(safety) => {
+                verif_event(format!("hit {} {}", name.name(), verif_safety(safety)));
+                return safety.clone();
+            }
+            #[cfg(not(conjure_rust_verif))]
             CachedLogSafety::Computed(safety) => return safety.clone(),
             // temporarily treat it as safe in case of recursive type definitions.
             CachedLogSafety::InProgress(depth) => {
+                #[cfg(conjure_rust_verif)]
+                verif_event(format!("cycle {}", name.name()));
                 self.log_safety_cycle
                     .set(self.log_safety_cycle.get().min(*depth));
                 return Some(LogSafety::Safe);
@@ -1055,6 +1092,8 @@ impl Context {
         self.log_safety_depth.set(depth + 1);
         let outer_cycle = self.log_safety_cycle.replace(usize::MAX);
         *ctx.log_safety.borrow_mut() = CachedLogSafety::InProgress(depth);
+        #[cfg(conjure_rust_verif)]
+        verif_event(format!("enter {}", name.name()));
 
         let safety = match &ctx.def {
             TypeDefinition::Alias(alias) => alias
@@ -1096,6 +1135,13 @@ impl Context {
         } else {
             CachedLogSafety::Computed(safety.clone())
         };
+        #[cfg(conjure_rust_verif)]
+        verif_event(format!(
+            "final {} {} {}",
+            name.name(),
+            verif_safety(&safety),
+            !provisional
+        ));
         self.log_safety_depth.set(depth);
         self.log_safety_cycle
             .set(outer_cycle.min(if cycle < depth { cycle } else { usize::MAX }));
